@@ -107,6 +107,8 @@ def gen_cases(rng, tier):
 
     def add(**kw):
         kw.setdefault("seed", rng.randrange(1 << 30))
+        # scalar weights as python numbers or as 0-d arrays (not for the malformed-weight stream)
+        kw.setdefault("w0d", (not kw.get("bad_field")) and len(cases) % 2 == 1)
         cases.append(c12.settle_seed(kw))
 
     def base_case(kind, E, U, force=None):
@@ -371,7 +373,8 @@ def nontrivial(case, obs):
 
 
 def tags(case, obs):
-    return _tags0(case, obs) + (["heterogeneous_parameter"] if case.get("het") else [])
+    return _tags0(case, obs) + (["heterogeneous_parameter"] if case.get("het") else []) + \
+        (["scalar_weights_as_0d_arrays"] if case.get("w0d") else [])
 
 
 def _tags0(case, obs):
